@@ -1077,6 +1077,31 @@ def must_call_table(crate):
 _MUSTCALL = None
 
 
+def _guard_moved_in(crate, b, ref, ctx):
+    """b has gained an early exit.  Legitimate in one shape: b is a private function with a single call site, that call site sits in
+    a loop of its caller, in the reviewed tree an iteration of that loop did NOT always reach the call (it was skipped under some
+    test) and now every iteration does — the skip test of the caller became the early return of the callee."""
+    if b.vis == "pub" or b.kind == "Closure" or not _weighty(b):      # (only weighty callees are recorded in the loop table)
+        return False
+    sites = [(g, c) for g in crate.bodies.values() for c in g.calls if c.callee and c.callee.target == b.id and not g.blocks[c.bb]["cleanup"] and g.id != b.id]
+    if len(sites) != 1:
+        return False
+    g, c = sites[0]
+    g = crate.root_of(g)
+    if g.kind == "Closure" or not g.name:
+        return False
+    lref = (_MUSTCALL or {}).get("loops:" + (ctx.cur_cfg or "default")) or (_MUSTCALL or {}).get("loops:default") or {}
+    gk = _mc_key(g)
+    alias = getattr(crate, "aliases", {}).get(b.id) or b.name
+    now = loop_must_calls(crate, g)
+    for lk, names in now.items():
+        if any(t is not None and t.id == b.id for nm, t in names):
+            was = lref.get("%s@%s" % (gk, lk), [])
+            if alias not in was and alias not in (ref.get(gk) or []):
+                return True
+    return False
+
+
 def must_call_census(ctx, crate, files):
     """MC: a function of `files` still calls, on every path to a normal return, each function it called on every path in the
     reviewed tree (mustcall.json).  Functions that no longer exist (folded into their callers) put no obligation."""
@@ -1147,6 +1172,10 @@ def must_call_census(ctx, crate, files):
                     inherited |= {w for w in rk if w not in g2}
         # a callee that no longer exists (folded into its callers) cannot be missed
         n += 1
+        lost = [w for w in want if w in names_now and w != name and w not in inherited and w not in got]
+        if lost and _guard_moved_in(crate, b, ref, ctx):
+            ctx.ok("early-exit:%s:guard-moved-in" % fkey(b), "%s returns early where its only caller used to skip the call: the guard moved from the call site into the function" % short(b.id))
+            continue
         for w in want:
             if w not in names_now or w == name or w in inherited:
                 continue
